@@ -20,7 +20,7 @@ from vlib import tolerance, evgen, evmon, evfind
 
 PROPERTY = 'C06'
 LEVEL = 'exploration'
-RULE = ('G-ev programs with an integer-heavy profile (FloorDivide/Mod with mixed signs, Minimum/Maximum/Absolute/Sign/Negative chains, Take from '
+RULE = ('systematic integer pairs f(A,B), f in mod/floordiv/min/max/mul/add/sub/greater/equal, A,B in 10 operand archetypes with tight ranges; G-ev programs with an integer-heavy profile (FloorDivide/Mod with mixed signs, Minimum/Maximum/Absolute/Sign/Negative chains, Take from '
         'integer tables, RavelIndex, NormDim, InRange, Range+offset, loop indices, products/sums/powers of ints) plus the general profile; '
         'an observation = one (node object, evaluated value) pair; non-trivial case = >=3 inner nodes; distinct = operator skeleton')
 ASSUMPTIONS = ['metadata is compared with the evaluation of the same node object (self-consistency), not with the shadow',
@@ -34,7 +34,14 @@ KINDCHAR = {bool: 'b', int: 'i', float: 'f', complex: 'c'}
 
 def plan(tier, seed):
     n = scaled(NCASES[tier])
-    return [dict(start=i, stop=min(n, i + CHUNK)) for i in range(0, n, CHUNK)]
+    units = [dict(start=i, stop=min(n, i + CHUNK)) for i in range(0, n, CHUNK)]
+    # systematic integer-range mixer: f(archetype A, archetype B) [consumed by a second range-sensitive operation]
+    combos = [(f, a, b, None) for f in evgen.INT_BINOPS for a in evgen.INT_ARCHETYPES for b in evgen.INT_ARCHETYPES]
+    if tier == 'thorough':
+        combos += [(f, a, b, t) for f in evgen.INT_BINOPS[:7] for a in evgen.INT_ARCHETYPES for b in evgen.INT_ARCHETYPES for t in ('mod', 'floordiv', 'max', 'mul')]
+    for j in range(0, len(combos), 60):
+        units.append(dict(intpairs=combos[j:j + 60], reps=4 if tier == 'quick' else 12))
+    return units
 
 
 def setup():
@@ -312,7 +319,20 @@ def run_units(units, ctx):
         res.note('NUTILS_VERIF observer hook unavailable')
         return res
     for u in units:
-        for i in range(u['start'], u['stop']):
+        for f, a, b, t in u.get('intpairs', ()):
+            for rep in range(u['reps']):
+                if ctx.expired():
+                    res.count('skipped_deadline')
+                    continue
+                key = (ctx.seed, 'c06pair', f, a, b, str(t), rep)
+                try:
+                    case = evgen.intpair(rng_for(*key), f, a, b, t)
+                except evgen.Reject:
+                    res.count('intpair_not_constructible')
+                    continue
+                res.add('intpairs', f'{f}/{a}/{b}/{t}')
+                check_case(case, key, res, ctx.tier)
+        for i in range(u.get('start', 0), u.get('stop', 0)):
             if ctx.expired():
                 res.count('skipped_deadline')
                 continue
@@ -345,7 +365,7 @@ def finalize(m, tier, seed):
                observations_per_class=dict(sorted(classes.items(), key=lambda kv: -kv[1])[:80]),
                intbounds_checked=c.get('intbounds_checked', 0), intbounds_finite=c.get('intbounds_finite', 0), intbounds_tight=c.get('intbounds_tight', 0),
                shape_entries=dict(constant=c.get('shape_entries_constant', 0), computed=c.get('shape_entries_computed', 0), not_evaluable=c.get('shape_entries_not_evaluable', 0)),
-               argument_experiments=c.get('argument_experiments', 0), assignments=c.get('assignments', 0), out_of_domain=c.get('out_of_domain', 0),
+               integer_pair_combinations=len(m.sets.get('intpairs', ())), argument_experiments=c.get('argument_experiments', 0), assignments=c.get('assignments', 0), out_of_domain=c.get('out_of_domain', 0),
                skipped_c01_event=c.get('skipped_c01_event', 0), other_exception_in_pipeline=c.get('other_exception_in_pipeline', 0),
                walk_not_evaluable=c.get('walk_not_evaluable', 0), skipped_deadline=c.get('skipped_deadline', 0), nonreproducible=c.get('nonreproducible', 0))
     inc = None
